@@ -1,7 +1,10 @@
 use std::cmp;
 use std::collections::{BinaryHeap, HashMap};
 use std::mem;
+#[cfg(not(may_verif))]
 use std::sync::atomic::{AtomicUsize, Ordering};
+#[cfg(may_verif)]
+use crate::verif::atomic::{AtomicUsize, Ordering};
 use std::sync::Arc;
 use std::thread;
 use std::time::{Duration, Instant};
